@@ -352,7 +352,7 @@ fn inner_layout(s: &mut Src, name: &str, bits: u32, debug: bool) -> Layout {
             });
         }
     }
-    Layout { name: name.to_string(), base_bits: bits, default: None, default_colon: false, debug, fields, enums: vec![], inners: vec![] }
+    Layout { name: name.to_string(), base_bits: bits, default: None, default_colon: false, debug, fields, enums: vec![], inners: vec![], debug_first: false }
 }
 
 /// split w into `parts` positive integers
@@ -390,7 +390,7 @@ pub fn build_layout(p: &Profile, words: &[u32]) -> Layout {
 }
 
 pub fn build_layout_on(p: &Profile, s: &mut Src, bits: u32) -> Layout {
-    let mut l = Layout { name: "S".into(), base_bits: bits, default: None, default_colon: false, debug: p.debug, fields: vec![], enums: vec![], inners: vec![] };
+    let mut l = Layout { name: "S".into(), base_bits: bits, default: None, default_colon: false, debug: p.debug, fields: vec![], enums: vec![], inners: vec![], debug_first: false };
     let mut occupied = 0u128;
     let n_fields = s.range(1, p.max_fields);
     let mut forced_kind_done = p.force_kind.is_none();
@@ -689,6 +689,7 @@ pub fn build_layout_on(p: &Profile, s: &mut Src, bits: u32) -> Layout {
         l.default = Some(DefaultDecl { value: v, named_const: l.base_native() && s.chance(1, 4), radix: s.pick(&[10u8, 16, 16, 2]) });
         l.default_colon = s.chance(1, 4);
     }
+    l.debug_first = l.debug && s.chance(1, 2);
     l
 }
 
